@@ -332,6 +332,16 @@ func init() {
 						spec.ReplaceExt(gen.ExtEKU(false, gen.OIDEkuClient))
 						spec.ReplaceExt(gen.ExtPolicies([]string{gen.OIDPolDV, gen.OIDPolOV, gen.OIDPolIV}[si%3], "1.3.6.1.4.1.55555.1.1"))
 					}
+					if si%7 == 1 || si%7 == 4 {
+						// a server-auth certificate (by EKU) that ALSO asserts a policy of another CA/B Forum document (S/MIME,
+						// code signing) or only foreign policies: still a TLS server certificate
+						extra := []string{"2.23.140.1.5.1.1", "2.23.140.1.5.2.2", "2.23.140.1.5.3.3", "2.23.140.1.5.4.1", gen.OIDPolCS, gen.OIDPolEVCS, "1.3.6.1.4.1.55555.1.1"}[(si+int(t.Unix()/7))%7]
+						if si%7 == 1 {
+							spec.ReplaceExt(gen.ExtPolicies(gen.OIDPolOV, extra))
+						} else {
+							spec.ReplaceExt(gen.ExtPolicies(extra))
+						}
+					}
 					subj := []gen.ATV{gen.A(gen.OIDC, "US"), gen.A(gen.OIDO, "Example Org")}
 					if sh.cn != "" {
 						subj = append(subj, gen.A(gen.OIDCN, sh.cn))
